@@ -15,7 +15,8 @@ fn split_id(id: Option<&String>) -> (String, Value) {
 
 /// obs = {panicked, err, cands: [{value, k, id, hidden}]}
 pub fn complete_obs(cmd: &Command, name: &[u8], words: &Value, i: usize) -> Value {
-    let mut args: Vec<OsString> = vec![os(name)];
+    // a no_binary_name command is completed without argv[0] (the cursor index shifts with it)
+    let (mut args, i): (Vec<OsString>, usize) = if cmd.is_no_binary_name_set() { (vec![], i - 1) } else { (vec![os(name)], i) };
     for w in words.as_array().unwrap() {
         args.push(os(&bytes_of(w)));
     }
